@@ -548,7 +548,21 @@ pub fn cmd_explore(opt: &HashMap<String, String>) -> i32 {
         let depth = if thorough { 4 } else { 3 };
         let t0 = std::time::Instant::now();
         let ladder = if thorough { 300 } else { 40 };
-        let r = crate::instvar::explore(depth, ladder, threads);
+        let iskips: Vec<(String, String)> = skips.iter().filter(|x| x.kind == 4).filter_map(|x| x.raw.clone().map(|r| (r, x.reason.clone()))).collect();
+        crate::contain::set_phase(9000);
+        // a step that killed or stalled an earlier attempt and is owned by this property decides the check
+        let owned: Vec<Violation> = iskips
+            .iter()
+            .filter_map(|(raw, why)| {
+                let (props, text) = crate::instvar::owned_by(raw);
+                (props & sel != 0 && !raw.contains(":01")).then(|| Violation { props, rule: "C07.crash", detail: format!("{}: {why}", text.join("; ")) })
+            })
+            .collect();
+        let r = if owned.is_empty() {
+            crate::instvar::explore(depth, ladder, threads, &iskips)
+        } else {
+            crate::instvar::InstResult { violations: owned, ..Default::default() }
+        };
         let mut stats = Stats::default();
         stats.transitions = r.checks;
         stats.executions = r.steps;
@@ -581,6 +595,57 @@ pub fn cmd_explore(opt: &HashMap<String, String>) -> i32 {
             known: Default::default(),
         };
         phases.push(Phase { name: format!("instantiation variants: all operation sequences <= {depth} over ~60 operations (incl. clone_from, forgotten drain) for 8 instantiations (plain data with varying size estimate and non-bitwise Clone, String/&str, zero-sized key, zero-sized value, 32-byte aligned value, default hasher, drop glue on one side)"), result, roots: vec![root], alpha_len: 60, nkeys, fault_props: 0, u: u.clone() });
+    }
+
+    // C16 on the other instantiations
+    if want(16) && !opt.contains_key("no-instvar") && std::env::var_os("LRUMC_NO_INSTVAR").is_none() && !verdict_reached(&phases) {
+        let depth = if thorough { 3 } else { 2 };
+        let t0 = std::time::Instant::now();
+        let iskips: Vec<(String, String)> = skips.iter().filter(|x| x.kind == 4).filter_map(|x| x.raw.clone().map(|r| (r, x.reason.clone()))).collect();
+        crate::contain::set_phase(9001);
+        let owned: Vec<Violation> = iskips
+            .iter()
+            .filter_map(|(raw, why)| {
+                let (props, text) = crate::instvar::owned_by(raw);
+                (props == p(16)).then(|| Violation { props, rule: "postfault.crash", detail: format!("{}: {why}", text.join("; ")) })
+            })
+            .collect();
+        let r = if owned.is_empty() {
+            crate::instvar::explore_faults(depth, threads, &iskips)
+        } else {
+            crate::instvar::InstResult { violations: owned, ..Default::default() }
+        };
+        let mut stats = Stats::default();
+        stats.transitions = r.faults;
+        stats.executions = r.checks;
+        *stats.rule_evals.entry("postfault.* on instantiation variants").or_insert(0) += r.faults;
+        for c in &r.outcomes {
+            *stats.classes.entry(c).or_insert(0) += 1;
+        }
+        let cfg = Config { hk: HK::Const, cap: None, limit: usize::MAX };
+        let root = Root { cfg, prefix: vec![], label: "7 instantiations of LruCache<K, V, S> x {constant, spread} hasher x 5 prefixes x {unbounded, exactly full}".into() };
+        let violations = r
+            .violations
+            .into_iter()
+            .map(|x| VRec { props: x.props, rule: x.rule, detail: x.detail, root: 0, hist: vec![], op: None, mode: "instvar-faults" })
+            .collect();
+        let result = ExploreResult {
+            states: 0,
+            transitions: r.faults,
+            depth_completed: depth,
+            fixpoint: true,
+            cap_hit: None,
+            stats,
+            violations,
+            machinery: None,
+            samples: vec![],
+            level_sizes: vec![],
+            wall_s: t0.elapsed().as_secs_f64(),
+            novel: vec![],
+            fault_states: 0,
+            known: Default::default(),
+        };
+        phases.push(Phase { name: format!("instantiation variants under fault injection: every operation sequence <= {depth}, the last operation with a panic at every index of every callback kind it reaches (hash, eq, clone, size estimate, closure, predicate); post-fault oracle, 12-step use battery, drop"), result, roots: vec![root], alpha_len: 60, nkeys, fault_props: p(16), u: u.clone() });
     }
 
     // C13: parametric families (the quantifier is over a number)
@@ -892,8 +957,14 @@ pub fn cmd_replay(opt: &HashMap<String, String>) -> i32 {
         println!("  {l}");
     }
     match (mode.as_str(), op) {
+        ("instvar-faults", _) => {
+            let r = crate::instvar::explore_faults(2, 16, &[]);
+            for x in r.violations {
+                viols.push((x.rule.to_string(), x.detail));
+            }
+        }
         ("instvar", _) => {
-            let r = crate::instvar::explore(3, 40, 16);
+            let r = crate::instvar::explore(3, 40, 16, &[]);
             for x in r.violations {
                 if x.props & sel != 0 {
                     viols.push((x.rule.to_string(), x.detail));
